@@ -816,3 +816,36 @@ import logging as _logging  # noqa: E402
 @model_for(_logging.getLogger)
 def m_getlogger(I, args, kw):
     return Opaque('object', 'logger', facts={'noraise', 'logger', 'truthy'})
+
+
+@spec_builtin('exists_in')
+def sb_exists_in(I, args, kw):
+    """exists_in(collection, f): some element satisfies f.  For a list of symbolic
+    length only the members witnessed on this path are tried (a sound
+    under-approximation when the clause has to be proved)."""
+    coll, f = args
+    coll = I.resolve_opt(coll)
+    if coll is None:
+        return False
+    items = coll.members if isinstance(coll, _pyvc().SList) else I.iterate_concrete(coll)
+    ts = []
+    for x in items:
+        t = I.truth(I.call_value(f, [x], {}))
+        if t is True:
+            return True
+        if t is not False:
+            ts.append(t)
+    if not ts:
+        return False
+    return lower_bool(z3.Or(*ts) if len(ts) > 1 else ts[0])
+
+
+def _link_specrt():
+    for _n, _marker in list(M.SPEC_BUILTINS.items()):
+        _f = getattr(_specrt, _n, None)
+        if _f is not None and id(_f) not in M._MODELS:
+            M._MODELS[id(_f)] = M._MODELS[id(_marker)]
+            M._MODEL_KEEP.append(_f)
+
+
+_link_specrt()
